@@ -20,25 +20,26 @@ type finding struct {
 
 // outcome is everything one scenario observed.
 type outcome struct {
-	sc            *scenario
-	Findings      []finding `json:"findings,omitempty"`
-	Inconclusive  string    `json:"inconclusive,omitempty"`
-	IdleWaits     int       `json:"idle_waits"`
-	IdleWaitsMax  int       `json:"idle_waits_max_one_drive"`
-	Events        int       `json:"events_checked"`
-	Deliveries    int       `json:"deliveries_verified"`
-	Acked         int       `json:"uploads_acked"`
-	FailedUploads int       `json:"uploads_failed"`
-	Incarnations  int       `json:"incarnations"`
-	Refused       int       `json:"startups_refused"`
-	RestartAt     []string  `json:"restart_at,omitempty"`
-	Faults        []string  `json:"faults_delivered,omitempty"`
-	StaleRows     int       `json:"stale_rows_tolerated"`
-	DrainRestart  bool      `json:"drain_restart,omitempty"`
-	Schedules     []string  `json:"schedules,omitempty"`
-	Log           []evt     `json:"log,omitempty"`
-	EffQueue      []effEvent `json:"effective_queue_mutations,omitempty"`
-	sigKind       string
+	sc               *scenario
+	Findings         []finding  `json:"findings,omitempty"`
+	Inconclusive     string     `json:"inconclusive,omitempty"`
+	IdleWaits        int        `json:"idle_waits"`
+	IdleWaitsMax     int        `json:"idle_waits_max_one_drive"`
+	Events           int        `json:"events_checked"`
+	Deliveries       int        `json:"deliveries_verified"`
+	Acked            int        `json:"uploads_acked"`
+	FailedUploads    int        `json:"uploads_failed"`
+	Incarnations     int        `json:"incarnations"`
+	Refused          int        `json:"startups_refused"`
+	RestartAt        []string   `json:"restart_at,omitempty"`
+	Faults           []string   `json:"faults_delivered,omitempty"`
+	StaleRows        int        `json:"stale_rows_tolerated"`
+	StaleUnexplained int        `json:"stale_rows_without_failed_delete"`
+	DrainRestart     bool       `json:"drain_restart,omitempty"`
+	Schedules        []string   `json:"schedules,omitempty"`
+	Log              []evt      `json:"log,omitempty"`
+	EffQueue         []effEvent `json:"effective_queue_mutations,omitempty"`
+	sigKind          string
 }
 
 func (o *outcome) add(sig, format string, args ...any) {
@@ -76,30 +77,6 @@ func (w *world) client(inc *incarnation, blobs []sto.Blob, burst bool, acked map
 	return failed
 }
 
-// handlerDone reports whether the handler of incarnation inc has, as far as the
-// call log shows, finished with queue key: it issued a queue.Delete for it after the
-// last queue.Set it issued for it (a Set is issued exactly when the handler starts to
-// track a blob again).
-func handlerDone(evs []evt, inc int, key string) bool {
-	var lastDel, lastSet int64
-	for _, e := range evs {
-		if e.Inc != inc || e.Layer != "queue" || e.Key != key {
-			continue
-		}
-		switch e.Op {
-		case "Delete":
-			if e.Call > lastDel {
-				lastDel = e.Call
-			}
-		case "Set":
-			if e.Call > lastSet {
-				lastSet = e.Call
-			}
-		}
-	}
-	return lastDel > 0 && lastDel > lastSet
-}
-
 // complete: every acknowledged blob is at the destination and no queue row is
 // left that the handler still has to work on.
 func (w *world) complete(inc *incarnation, acked map[string]bool) bool {
@@ -113,16 +90,44 @@ func (w *world) complete(inc *incarnation, acked map[string]bool) bool {
 	if err != nil {
 		return false
 	}
-	if len(rows) == 0 {
-		return true
-	}
 	evs := w.rec.snapshot()
 	for k := range rows {
-		if !handlerDone(evs, inc.n, k) {
+		// a row whose blob is not (yet) at the destination is still pending
+		b, ok := w.blobOf(k)
+		if !ok || w.deliveredState(b) != "ok" {
+			return false
+		}
+		// … and so is one the handler is still going to retry: it has not yet seen a valid
+		// acknowledgement followed by its queue.Delete (e.g. the destination stored the blob but
+		// the ack was lost)
+		if !handlerFinished(evs, inc.n, k, int64(len(b.Data))) {
 			return false
 		}
 	}
 	return true
+}
+
+// handlerFinished: in incarnation inc the handler saw a destination acknowledgement with
+// the true size for key and then issued a queue.Delete for it.
+func handlerFinished(evs []evt, inc int, key string, size int64) bool {
+	var ack int64
+	for _, e := range evs {
+		if e.Inc != inc || e.Key != key || e.Ret == 0 {
+			continue
+		}
+		if e.Layer == "dst" && e.Op == "ReceiveBlob" && e.OK && e.Size == size && (ack == 0 || e.Ret < ack) {
+			ack = e.Ret
+		}
+	}
+	if ack == 0 {
+		return false
+	}
+	for _, e := range evs {
+		if e.Inc == inc && e.Key == key && e.Layer == "queue" && e.Op == "Delete" && e.Call > ack {
+			return true
+		}
+	}
+	return false
 }
 
 var fillerN struct {
@@ -215,32 +220,32 @@ func execute(sc *scenario) *outcome {
 		pending = pending[n:]
 		retry = nil
 
-		if is.GateFirstSet && len(todo) > 0 {
-			// schedule control: hold the first queue.Set until the loop has copied the blob and
-			// issued its queue.Delete
+		if is.ReuploadAtGate && len(todo) > 0 && len(is.Faults) > 0 {
+			// schedule control: upload the first blob, wait until the copy loop is inside the gated
+			// call for it, upload it again, open the gate
+			g := is.Faults[0]
 			first := todo[0]
 			todo = todo[1:]
-			delDone := make(chan struct{})
+			atGate := make(chan struct{})
 			var once sync.Once
 			w.rec.mu.Lock()
-			w.rec.onEnd = func(e evt) {
-				if e.Layer == "queue" && e.Op == "Delete" && e.Key == first.Ref.String() {
-					once.Do(func() { close(delDone) })
+			w.rec.onBegin = func(e evt) {
+				if e.Inc == inc.n && e.Layer == g.Layer && e.Op == g.Op && e.Key == first.Ref.String() {
+					once.Do(func() { close(atGate) })
 				}
 			}
 			w.rec.mu.Unlock()
-			upDone := make(chan []sto.Blob, 1)
-			go func() { upDone <- w.client(inc, []sto.Blob{first}, false, acked, o) }()
+			retry = append(retry, w.client(inc, []sto.Blob{first}, false, acked, o)...)
 			select {
-			case <-delDone:
-				o.Schedules = append(o.Schedules, "queue.Delete-before-queue.Set")
+			case <-atGate:
+				retry = append(retry, w.client(inc, []sto.Blob{first}, false, acked, o)...)
+				o.Schedules = append(o.Schedules, "reupload-during-"+g.Layer+"."+g.Op)
 			case <-time.After(20 * time.Second):
-				o.Schedules = append(o.Schedules, "gate-released-by-watchdog")
+				o.Schedules = append(o.Schedules, "gate-never-reached")
 			}
-			inc.fault["queue"].ReleaseAll()
-			retry = append(retry, <-upDone...)
+			inc.fault[g.Layer].ReleaseAll()
 			w.rec.mu.Lock()
-			w.rec.onEnd = nil
+			w.rec.onBegin = nil
 			w.rec.mu.Unlock()
 		}
 
@@ -515,7 +520,6 @@ func (w *world) finalState(inc *incarnation, acked map[string]bool, flagged map[
 		o.Inconclusive = "durable queue unreadable: " + err.Error()
 		return 0
 	}
-	evs := w.rec.snapshot()
 	keys := make([]string, 0, len(rows))
 	for k := range rows {
 		keys = append(keys, k)
@@ -526,11 +530,20 @@ func (w *world) finalState(inc *incarnation, acked map[string]bool, flagged map[
 			o.add("queue-not-drained-after-restart/"+o.sigKind, "queue row %s => %q is still present after a fault-free restart and %d idle waits", k, rows[k], o.IdleWaits)
 			continue
 		}
-		if handlerDone(evs, inc.n, k) {
+		b, known := w.blobOf(k)
+		switch {
+		case known && w.deliveredState(b) == "ok":
+			// delivered, but the row could not be removed (injected queue.Delete failure): the
+			// statement only asks that it is completed after a restart, which is checked next
 			stale++
-			continue
+			if !deleteFailed(w.rec.snapshot(), k) {
+				o.StaleUnexplained++
+			}
+		case acked[k]:
+			// reported as not-delivered above
+		default:
+			o.add("queue-not-empty/"+o.sigKind, "queue row %s => %q is still present after the bounded progress of incarnation %d and its blob is not at the destination", k, rows[k], inc.n)
 		}
-		o.add("queue-not-empty/"+o.sigKind, "queue row %s => %q is still present after the bounded progress and the handler never issued a queue.Delete for it in incarnation %d", k, rows[k], inc.n)
 	}
 	if !afterDrain {
 		o.StaleRows = stale
@@ -546,4 +559,14 @@ func (w *world) rowKeys() []string {
 	}
 	sort.Strings(ks)
 	return ks
+}
+
+// deleteFailed reports whether some queue.Delete of key returned an error.
+func deleteFailed(evs []evt, key string) bool {
+	for _, e := range evs {
+		if e.Layer == "queue" && e.Op == "Delete" && e.Key == key && e.Ret > 0 && !e.OK {
+			return true
+		}
+	}
+	return false
 }
